@@ -165,6 +165,8 @@ public:
     uint32_t lib_rcvbuf = 0;
     bool block_ipv6 = true;
     int conn_type = 0;                   // default for start(): 0 leech (library default), 1 seed, 2 initial seed
+    int enc_handshake_mode = -1;         // network_config encryption modes (torrent::encryption_mode: 0 deny,
+    int enc_stream_mode = -1;            //  1 allow, 2 prefer, 3 require); -1 = leave the library default (allow/allow)
   };
 
   Session();
